@@ -283,6 +283,9 @@ def run_case(case):
         return rec.result()
     names = list(zoo.unwrap(pop[0]).registry.hp_config.names())
     specs = {}
+    # what the USER configured (taken before anything ran): every agent, however the population was built, copied or
+    # selected, must mutate with exactly these ranges, factors and number types
+    declared = {n: (cfg[n].min, cfg[n].max, cfg[n].shrink_factor, cfg[n].grow_factor, cfg[n].dtype) for n in cfg.names()}
     changed_any = bound_or_lr = False
     m = agentops.make_mutations("rl_hp", seed=case["seed"] % 100000)
     for rnd in range(case["rounds"]):
@@ -303,6 +306,14 @@ def run_case(case):
             a = zoo.unwrap(pop[k])
             hp = a.registry.hp_config
             specs = {n: (hp[n].min, hp[n].max, hp[n].shrink_factor, hp[n].grow_factor, hp[n].dtype) for n in hp.names()}
+            rec.hit("declared_config_checks")
+            if specs != declared:
+                bad = sorted(n for n in set(specs) | set(declared) if specs.get(n) != declared.get(n))
+                rec.violate("configured_spec", "agent_carries_other_ranges_or_factors_than_configured", "HyperparameterConfig",
+                            algo=algo, how=how, member=k, round=rnd, names=bad,
+                            carried={n: [repr(x) for x in specs.get(n, ())] for n in bad[:3]},
+                            configured={n: [repr(x) for x in declared.get(n, ())] for n in bad[:3]})
+                specs = dict(declared)  # judge the mutation against what was configured
             log = []
             real = R.torch
             R.torch = _TorchProxy(real, log)
